@@ -31,6 +31,7 @@ def self_field(t, name):
 def rule_index_guards(rep, prog, adt=BITMAP, field="map", size_field="size"):
     """R9.1: each word index sink is dominated by POS(page) < LEN(pages) on the same page term"""
     n = 0
+    eff = effects.Effects(prog)
     for b in prog.bodies:
         root = prog.by_id.get(b.root, b)
         if root.self_adt != adt:
@@ -39,17 +40,22 @@ def rule_index_guards(rep, prog, adt=BITMAP, field="map", size_field="size"):
             cn = canon(c.target or "")
             if not (cn.endswith("Index::index") or cn.endswith("IndexMut::index_mut")):
                 continue
-            base = effects.base_of(c.arg(0))
+            base = effects.base_of(eff.in_parent(b, c.arg(0))[1] if b.kind == "Closure" else c.arg(0))
             if not (base[0] == 'field' and base[2] == field):
                 continue
             n += 1
             idx = deep_strip(c.arg(1))
+            facts = b.facts_at(c.pos)
+            if b.kind == "Closure":
+                # a closure of a bitmap method (`.take_while(|&n| n < self.size).for_each(|n| .. self.map[n >> 6] ..)`): read the index
+                # and the facts in the method's own terms, with what the iterator chain guarantees about the item
+                idx = deep_strip(eff.in_parent(b, idx, tag_own=True)[1])
+                facts = effects.facts_in_parent(eff, b, c.pos)
             page = c08.word_index(idx)
             inst = f"{b.key}|map[{tstr(idx)}]"
             if page is None:
                 rep("R9.1.word_unit", inst, False, c.where(), "word index is not `page >> 6` (page -> word unit error)")
                 continue
-            facts = b.facts_at(c.pos)
             ok = any(r[0] == 'cmp' and ((r[1] == 'Lt' and r[2] == page and self_field(r[3], size_field)) or
                                         (r[1] == 'Gt' and r[3] == page and self_field(r[2], size_field))) for r in facts)
             rep("R9.1.guard", inst, ok, c.where(),
@@ -258,7 +264,7 @@ def run(ctx, progs):
         ctx.config = cfg
         eff = effects.Effects(prog)
         n = rule_index_guards(ctx.ob, prog)
-        ctx.floor("R9.1.sinks", n, 5)
+        ctx.floor("R9.1.sinks", n, 4)   # is_bit_set, set_bit, reset_bit, and at least one access in the range loop
         rule_is_bit_set(ctx.ob, prog)
         rule_sizes(ctx.ob, prog)
         rule_range_form(ctx.ob, prog)
